@@ -156,9 +156,13 @@ func TestC07(t *testing.T) {
 				src = br
 				c.Count("advanced_seekable_readers", 1)
 			}
+			bls := st.LinkSystem(false)
+			if ci%5 == 2 {
+				bls = store.ChunkedEncoders(bls, 1+ci%90) // CIDs must not depend on how the encoder writes
+			}
 			withWidth(fc.Width, func() {
 				var l ipld.Link
-				l, size, err = builder.BuildUnixFSFile(src, fc.Chunker, st.LinkSystem(false))
+				l, size, err = builder.BuildUnixFSFile(src, fc.Chunker, bls)
 				root = linkCid(l)
 			})
 			if err != nil {
